@@ -33,21 +33,27 @@ static const struct { const char *name; unsigned bb, klen; } SKV[6] = {
     {"skinny64-64", 8, 8}, {"skinny64-128", 8, 16}, {"skinny64-192", 8, 24},
     {"skinny128-128", 16, 16}, {"skinny128-256", 16, 32}, {"skinny128-384", 16, 48}};
 
+static int lib_relocate;
 static void lib_skinny(unsigned bb, const uint8_t *key, unsigned klen, int dec, const uint8_t *in, uint8_t *out, int *ret)
 {
+    /* relocate != 0: the schedule is copied to a fresh address in a PROT_READ page and the original is scrambled
+       before it is used (a key schedule is plain data passed by pointer-to-const: it must be copyable and never written) */
     if (bb == 16) {
-        Skinny128Key_t ks;
+        Skinny128Key_t ks; const Skinny128Key_t *use = &ks;
         vh_call_begin("skinny128_set_key"); *ret = skinny128_set_key(&ks, key, klen); vh_call_end();
+        if (lib_relocate) { use = vh_ro_copy(0, &ks, sizeof(ks)); memset(&ks, 0xA5, sizeof(ks)); }
         vh_call_begin(dec ? "skinny128_ecb_decrypt" : "skinny128_ecb_encrypt");
-        if (dec) skinny128_ecb_decrypt(out, in, &ks); else skinny128_ecb_encrypt(out, in, &ks);
+        if (dec) skinny128_ecb_decrypt(out, in, use); else skinny128_ecb_encrypt(out, in, use);
         vh_call_end();
     } else {
-        Skinny64Key_t ks;
+        Skinny64Key_t ks; const Skinny64Key_t *use = &ks;
         vh_call_begin("skinny64_set_key"); *ret = skinny64_set_key(&ks, key, klen); vh_call_end();
+        if (lib_relocate) { use = vh_ro_copy(0, &ks, sizeof(ks)); memset(&ks, 0xA5, sizeof(ks)); }
         vh_call_begin(dec ? "skinny64_ecb_decrypt" : "skinny64_ecb_encrypt");
-        if (dec) skinny64_ecb_decrypt(out, in, &ks); else skinny64_ecb_encrypt(out, in, &ks);
+        if (dec) skinny64_ecb_decrypt(out, in, use); else skinny64_ecb_encrypt(out, in, use);
         vh_call_end();
     }
+    if (lib_relocate) { vh_ro_release(0); VH_COUNT("calls_on_relocated_read_only_schedule", 1); }
 }
 
 #define C01_STRUCT 8192
@@ -100,6 +106,7 @@ static void c01_case(uint64_t idx)
     if (dec) ref_skinny_key_crypt(bb, key, klen, 1, in, exp_); else ref_skinny_key_crypt(bb, key, klen, 0, in, exp_);
     ref_tally_enabled = 0;
     memset(out, 0xEE, sizeof(out));
+    lib_relocate = (int)((idx / 12) & 1);
     lib_skinny(bb, key, klen, (int)dec, in, out, &ret);
     VH_COUNT("blocks_compared", 1);
     { static char cn[6][2][48]; if (!cn[v][dec][0]) snprintf(cn[v][dec], 48, "n_%s_%s", SKV[v].name, dec ? "dec" : "enc"); *vh_counter_ref(cn[v][dec]) += 1; }
@@ -156,14 +163,16 @@ static void c02_case(uint64_t idx)
     if (dec) ref_mantis_decrypt(rounds, key, eff_tweak, in, exp_); else ref_mantis_encrypt(rounds, key, eff_tweak, in, exp_);
     memset(&ks, 0xA5, sizeof(ks)); memset(out, 0xEE, 8);
     vh_call_begin("mantis_set_key"); ret = mantis_set_key(&ks, key, 16, rounds, dec ? MANTIS_DECRYPT : MANTIS_ENCRYPT); vh_call_end();
-    switch (entry) {
-    case 0: vh_call_begin("mantis_set_tweak"); ret2 = mantis_set_tweak(&ks, tweak, 8); vh_call_end();
-            vh_call_begin("mantis_ecb_crypt"); mantis_ecb_crypt(out, in, &ks); vh_call_end(); break;
-    case 1: vh_call_begin("mantis_ecb_crypt_tweaked"); mantis_ecb_crypt_tweaked(out, in, tweak, &ks); vh_call_end(); break;
-    case 2: vh_call_begin("mantis_ecb_crypt"); mantis_ecb_crypt(out, in, &ks); vh_call_end(); break;
-    default: vh_call_begin("mantis_set_tweak"); ret2 = mantis_set_tweak(&ks, tweak, 8); vh_call_end();   /* non-zero first, then NULL */
-            vh_call_begin("mantis_set_tweak(NULL)"); ret2 &= mantis_set_tweak(&ks, NULL, 8); vh_call_end();
-            vh_call_begin("mantis_ecb_crypt"); mantis_ecb_crypt(out, in, &ks); vh_call_end(); break;
+    {
+        /* odd k: block processing runs on a relocated PROT_READ copy of the schedule, the original is scrambled */
+        const MantisKey_t *use = &ks; int reloc = (int)(k & 1);
+        if (entry == 0) { vh_call_begin("mantis_set_tweak"); ret2 = mantis_set_tweak(&ks, tweak, 8); vh_call_end(); }
+        if (entry == 3) { vh_call_begin("mantis_set_tweak"); ret2 = mantis_set_tweak(&ks, tweak, 8); vh_call_end();   /* non-zero first, then NULL */
+                          vh_call_begin("mantis_set_tweak(NULL)"); ret2 &= mantis_set_tweak(&ks, NULL, 8); vh_call_end(); }
+        if (reloc) { use = vh_ro_copy(0, &ks, sizeof(ks)); memset(&ks, 0x5A, sizeof(ks)); VH_COUNT("calls_on_relocated_read_only_schedule", 1); }
+        if (entry == 1) { vh_call_begin("mantis_ecb_crypt_tweaked"); mantis_ecb_crypt_tweaked(out, in, tweak, use); vh_call_end(); }
+        else { vh_call_begin("mantis_ecb_crypt"); mantis_ecb_crypt(out, in, use); vh_call_end(); }
+        if (reloc) vh_ro_release(0);
     }
     VH_COUNT("blocks_compared", 1);
     { static char cn[4][2][4][64]; if (!cn[rounds - 5][dec][entry][0]) snprintf(cn[rounds - 5][dec][entry], 64, "n_mantis%u_%s_%s", rounds, dec ? "dec" : "enc", entries[entry]); *vh_counter_ref(cn[rounds - 5][dec][entry]) += 1; }
@@ -212,6 +221,7 @@ static void c03_single(uint64_t idx, vh_rng *r)
         if (tweaked) { ret = skinny128_set_tweaked_key(&tk, key, klen); if (vh_below(r, 4)) ret &= skinny128_set_tweak(&tk, tweak, tlen); ks = &tk.ks; }
         else { ret = skinny128_set_key(&pk, key, klen); ks = &pk; }
         vh_call_end();
+        if (idx & 4) { ks = vh_ro_copy(0, ks, sizeof(*ks)); memset(&tk, 0xA5, sizeof(tk)); memset(&pk, 0xA5, sizeof(pk)); VH_COUNT("calls_on_relocated_read_only_schedule", 1); }
         vh_call_begin("skinny128 ecb");
         skinny128_ecb_encrypt(y, x, ks); skinny128_ecb_decrypt(z, y, ks);
         vh_call_end();
@@ -226,6 +236,7 @@ static void c03_single(uint64_t idx, vh_rng *r)
         if (tweaked) { ret = skinny64_set_tweaked_key(&tk, key, klen); if (vh_below(r, 4)) ret &= skinny64_set_tweak(&tk, tweak, tlen); ks = &tk.ks; }
         else { ret = skinny64_set_key(&pk, key, klen); ks = &pk; }
         vh_call_end();
+        if (idx & 4) { ks = vh_ro_copy(0, ks, sizeof(*ks)); memset(&tk, 0xA5, sizeof(tk)); memset(&pk, 0xA5, sizeof(pk)); VH_COUNT("calls_on_relocated_read_only_schedule", 1); }
         vh_call_begin("skinny64 ecb");
         skinny64_ecb_encrypt(y, x, ks); skinny64_ecb_decrypt(z, y, ks);
         vh_call_end();
@@ -236,11 +247,42 @@ static void c03_single(uint64_t idx, vh_rng *r)
         if (memcmp(z, x, 8)) { strcat(k_, ":E(D(x))!=x"); c03_report(idx, k_, "encrypt(decrypt(x))", z, x, 8, NULL); return; }
     }
     VH_COUNT("single_block_roundtrips", 2);
+    vh_ro_release(0);
+}
+
+/* round trips of single calls of 4 .. 16 MiB (block-count arithmetic in the batch loops) */
+static void c03_parallel_big(uint64_t idx, vh_rng *r)
+{
+    const vh_cipher *c = &vh_ciphers[(idx >> 2) % CIPH_N];
+    static const uint32_t NB[] = {65537, 262145, 524289, 1048577};
+    uint32_t nb = NB[(idx >> 5) % 4]; size_t bytes = (size_t)nb * c->bb;
+    int be = (int)((idx >> 7) % (uint64_t)(maxbe[c->id] + 1)), order = (int)vh_below(r, 2), r1, r2, r3;
+    uint8_t key[48], *x = malloc(bytes), *y = malloc(bytes), *tw = malloc(bytes); unsigned klen = c->id == CIPH_MANTIS ? 16 : c->bb * (1 + vh_below(r, 3));
+    vh_handle h; char k_[160];
+    vh_rand_bytes(r, key, 48); vh_rand_bytes(r, x, bytes > 4096 ? 4096 : bytes); if (bytes > 4096) { size_t q; for (q = 4096; q < bytes; ++q) x[q] = (uint8_t)(x[q - 4096] + 1); }
+    vh_rand_bytes(r, tw, bytes > 4096 ? 4096 : bytes); if (bytes > 4096) { size_t q; for (q = 4096; q < bytes; ++q) tw[q] = (uint8_t)(tw[q - 4096] + 3); }
+    memset(&h, 0, sizeof(h)); vh_set_cap(be);
+    snprintf(k_, sizeof(k_), "C03:%s-parallel:%s:large-call", c->name, vh_backend_names[be]); vh_set_crash_key(k_);
+    vh_call_begin("parallel large round trip");
+    r1 = c->par_init(&h) & c->par_set_key(&h, key, klen, 5 + vh_below(r, 4), order ? MANTIS_DECRYPT : MANTIS_ENCRYPT);
+    if (c->id == CIPH_MANTIS) { r2 = c->par_encrypt(y, x, tw, bytes, &h); c->par_swap(&h); r3 = c->par_encrypt(y, y, tw, bytes, &h); }
+    else { r2 = (order ? c->par_decrypt : c->par_encrypt)(y, x, NULL, bytes, &h); r3 = (order ? c->par_encrypt : c->par_decrypt)(y, y, NULL, bytes, &h); }
+    vh_call_end();
+    if (r1 != 1 || r2 != 1 || r3 != 1 || memcmp(x, y, bytes)) {
+        size_t q = 0; char info[200]; while (q < bytes && x[q] == y[q]) ++q;
+        snprintf(info, sizeof(info), "{\"blocks\":%u,\"first\":\"%s\",\"first_diff_block\":%lu,\"ret\":[%d,%d,%d]}", nb, order ? "decrypt" : "encrypt", (unsigned long)(q / c->bb), r1, r2, r3);
+        strcat(k_, order ? ":E(D(x))!=x" : ":D(E(x))!=x");
+        c03_report(idx, k_, "large parallel round trip", y + (q < bytes ? q / c->bb * c->bb : 0), x + (q < bytes ? q / c->bb * c->bb : 0), c->bb, info);
+    }
+    c->par_cleanup(&h);
+    VH_COUNT("parallel_large_roundtrips", 1); VH_MAXC("max_blocks_in_one_parallel_call", nb);
+    free(x); free(y); free(tw);
 }
 
 static uint8_t PB[3][400 * 16];
 static void c03_parallel(uint64_t idx, vh_rng *r)
 {
+    if ((idx >> 2) % 250 == 7) { c03_parallel_big(idx, r); return; }
     const vh_cipher *c = &vh_ciphers[(idx >> 2) % CIPH_N];
     uint64_t k = idx / 12;
     unsigned nb = k < 41 ? (unsigned)k : vh_below(r, 300), bytes = nb * c->bb, klen;
@@ -344,9 +386,13 @@ static void c03_mantis(uint64_t idx, vh_rng *r)
             int tweaked_entry = (int)vh_below(r, 2);
             vh_rand_bytes(r, in, 8); vh_rand_bytes(r, t2, 8);
             if (mode) ref_mantis_encrypt(rounds, key, tweaked_entry ? t2 : tweak, in, exp_); else ref_mantis_decrypt(rounds, key, tweaked_entry ? t2 : tweak, in, exp_);
-            vh_call_begin(tweaked_entry ? "mantis_ecb_crypt_tweaked" : "mantis_ecb_crypt");
-            if (tweaked_entry) mantis_ecb_crypt_tweaked(out, in, t2, &ks); else mantis_ecb_crypt(out, in, &ks);
-            vh_call_end();
+            {
+                const MantisKey_t *use = (i & 1) ? vh_ro_copy(0, &ks, sizeof(ks)) : &ks;
+                vh_call_begin(tweaked_entry ? "mantis_ecb_crypt_tweaked" : "mantis_ecb_crypt");
+                if (tweaked_entry) mantis_ecb_crypt_tweaked(out, in, t2, use); else mantis_ecb_crypt(out, in, use);
+                vh_call_end();
+                if (i & 1) vh_ro_release(0);
+            }
             VH_COUNT("mantis_history_blocks", 1);
             if (log.n < 3000) { sb_printf(&log, "{\"%s\":", tweaked_entry ? "crypt_tweaked" : "crypt"); sb_hex(&log, in, 8); sb_printf(&log, "}"); }
             if (memcmp(out, exp_, 8)) {
@@ -442,10 +488,15 @@ static void c04_case(uint64_t idx)
             vh_rand_bytes(&r, in, bb);
             ref_skinny_tweaked_crypt(bb, key, klen, tweak, bb, dec, in, exp_);
             snprintf(k_, sizeof(k_), "C04:skinny%u:%s", bb * 8, dec ? "decrypt" : "encrypt"); vh_set_crash_key(k_);
-            vh_call_begin("ecb on tweaked schedule");
-            if (bb == 16) { if (dec) skinny128_ecb_decrypt(out, in, &t128.ks); else skinny128_ecb_encrypt(out, in, &t128.ks); }
-            else { if (dec) skinny64_ecb_decrypt(out, in, &t64.ks); else skinny64_ecb_encrypt(out, in, &t64.ks); }
-            vh_call_end();
+            {
+                const Skinny128Key_t *u128 = &t128.ks; const Skinny64Key_t *u64 = &t64.ks; int reloc = !chain && (int)vh_below(&r, 2);
+                if (reloc) { if (bb == 16) u128 = vh_ro_copy(0, &t128.ks, sizeof(t128.ks)); else u64 = vh_ro_copy(0, &t64.ks, sizeof(t64.ks)); VH_COUNT("calls_on_relocated_read_only_schedule", 1); }
+                vh_call_begin("ecb on tweaked schedule");
+                if (bb == 16) { if (dec) skinny128_ecb_decrypt(out, in, u128); else skinny128_ecb_encrypt(out, in, u128); }
+                else { if (dec) skinny64_ecb_decrypt(out, in, u64); else skinny64_ecb_encrypt(out, in, u64); }
+                vh_call_end();
+                if (reloc) vh_ro_release(0);
+            }
             VH_COUNT("blocks_compared", 1);
             if (log.n < 3000) { sb_printf(&log, "{\"%s\":", dec ? "decrypt" : "encrypt"); sb_hex(&log, in, bb); sb_printf(&log, "}"); }
             if (memcmp(out, exp_, bb)) {
